@@ -382,7 +382,8 @@ class Ctx:
     def _solver(s):
         if s._sol is None:
             s._sol = z3.Solver() if s.extra.get('decimal_model') else z3.SolverFor('QF_LRA')
-            if s.extra.get('decimal_model'): s._sol.set('timeout', 20000)
+            # a query that does not finish ends the configuration as UNEXPLORED (SolverBudget), it is never read as a verdict
+            s._sol.set('timeout', 20000 if s.extra.get('decimal_model') else 120000)
         if s._pending:
             s._sol.add(*s._pending); s._pending = []
         while s._nE < len(s.E):
@@ -440,7 +441,12 @@ class Ctx:
         r = sol.check()
         s.lra_queries += 1; s.lra_time += time.time() - t0
         if r == z3.unknown:
-            raise Inconclusive('z3 returned unknown on a QF_LRA query')
+            why = ''
+            try: why = sol.reason_unknown()
+            except Exception: pass
+            if 'timeout' in why or 'canceled' in why or 'resource' in why:
+                raise SolverBudget(f'z3 query did not finish within its time limit ({why})')
+            raise Inconclusive(f'z3 returned unknown ({why})')
         if r == z3.unsat: s.lra_unsat += 1
         return r
 
@@ -737,6 +743,10 @@ def explore(fn, max_paths=100000):
 
 
 # ------------------------------------------------------------------ symbolic values
+class SolverBudget(BaseException):
+    """a solver query ran into its time limit: the configuration is reported as unexplored"""
+
+
 class OutOfBound(BaseException):
     """path left the stated bound (e.g. harmonic index above K, a thin undecidable shell of a magnitude comparison); recorded, not a verdict"""
 
